@@ -30,12 +30,15 @@ const (
 	fP = "p.dat" // lockable, LFS tracked
 	fQ = "q.dat" // lockable, plain git file (changed by the local branch "side")
 	fR = "r.txt" // not lockable
+	fN = "n.dat" // lockable, plain git file that exists only on the local branch "side" (absent on work until `merge side`)
 )
 
-var wfiles = []string{fP, fQ, fR}
+var wfiles = []string{fP, fQ, fR, fN}
+
+const nFiles = 4
 var users = []string{"u1", "u2"}
 
-func lockable(f string) bool { return f == fP || f == fQ }
+func lockable(f string) bool { return f == fP || f == fQ || f == fN }
 func fileIdx(f string) int {
 	for i, n := range wfiles {
 		if n == f {
@@ -437,9 +440,9 @@ type userObs struct {
 	Cache   []cacheEnt // path-keyed entries of lfs/lockcache.db, sorted by path
 	IDKeys  []string   // "id>path" for the reverse entries
 	CacheOK string     // decoding problem, if any
-	W       [3]bool    // owner write bit of p,q,r
-	Exists  [3]bool
-	Content [3]string // sha of working-tree content
+	W       [nFiles]bool // owner write bit of p,q,r,n
+	Exists  [nFiles]bool
+	Content [nFiles]string // sha of working-tree content
 	Refs    []string  // "name sha" (HEAD symbolic first); remote-tracking work-<self> renamed
 	Cfg     string    // canonical .git/config
 	Merging bool
@@ -729,7 +732,9 @@ func (o *obs) describe() map[string]interface{} {
 		}
 		wb := map[string]bool{}
 		for i, f := range wfiles {
-			wb[f] = uo.W[i]
+			if uo.Exists[i] {
+				wb[f] = uo.W[i]
+			}
 		}
 		m[name] = map[string]interface{}{"cached_own_locks": c, "writable": wb, "branch": o.branch(u), "work": o.ref(u, "refs/heads/work"),
 			"pushed": o.remoteRef("refs/heads/work-" + name)}
